@@ -760,3 +760,26 @@ Theorem path_lookup_wfs : forall st r p i k pa pt fl its,
 Proof.
   intros. destruct (container_facts _ _ _ _ _ _ _ _ H H0) as (E & _). auto.
 Qed.
+
+(* --- a node that leaves a tree is handed back as a root -------------------------------------------------------------------------- *)
+Lemma restore_slot_live : forall i t rs rs', restore_slot i t rs = Some rs' -> exists r, nth_error rs' r = Some (Live t).
+Proof.
+  induction rs; simpl; intros; try discriminate. destruct a.
+  - destruct (restore_slot i t rs) eqn:E; [|discriminate]. inv H. destruct (IHrs _ eq_refl) as (r & X). exists (S r); auto.
+  - destruct (N.eqb i i0).
+    + inv H. exists O; auto.
+    + destruct (restore_slot i t rs) eqn:E; [|discriminate]. inv H. destruct (IHrs _ eq_refl) as (r & X). exists (S r); auto.
+Qed.
+Theorem detached_is_root : forall st i k pa pt fl its,
+  exists r t, nth_error (roots (add_detached st (Node i k pa pt fl its))) r = Some (Live t) /\
+              nid t = Some i /\ npar t = None /\ npth t = [] /\ t = detach (Node i k pa pt fl its).
+Proof.
+  intros. unfold add_detached.
+  assert (D : nid (detach (Node i k pa pt fl its)) = Some i /\ npar (detach (Node i k pa pt fl its)) = None /\
+              npth (detach (Node i k pa pt fl its)) = []).
+  { unfold detach. simpl. destruct (path_eqb pt []) eqn:E; simpl; auto. apply path_eqb_eq in E; subst; auto. }
+  destruct D as (D1 & D2 & D3).
+  destruct (restore_slot i (detach (Node i k pa pt fl its)) (roots st)) eqn:E.
+  - destruct (restore_slot_live _ _ _ _ E) as (r & X). exists r, (detach (Node i k pa pt fl its)). simpl. auto.
+  - exists (length (roots st)), (detach (Node i k pa pt fl its)). simpl. rewrite nth_error_app2, Nat.sub_diag; auto.
+Qed.
